@@ -9,7 +9,7 @@ import sys
 
 sys.path.insert(0, os.path.dirname(os.path.abspath(__file__)))
 import runner                                                     # noqa: E402
-from hist import (Edit, c_add, c_branch, c_branch_list, c_branch_delete, c_branch_rename, c_cat_file, c_commit, c_config, c_init, c_log,   # noqa: E402
+from hist import (c_branch_flags, Edit, c_add, c_branch, c_branch_list, c_branch_delete, c_branch_rename, c_cat_file, c_commit, c_config, c_init, c_log,   # noqa: E402
                   c_ls_files, c_reflog, c_reset, c_restore, c_rm, c_status, c_switch, c_switch_create,
                   c_write_tree, c_hash_object, c_rev_parse)
 
@@ -227,9 +227,26 @@ def spaced_ignore_entries():
                  c_status(), c_commit(b"c"), W(b"my notes/ideas.md", b"changed"), c_status()]
 
 
+def branch_flag_combinations():
+    return ID + [W(b"f", b"1"), c_add([b"f"]), c_commit(b"c1"), c_branch(b"dev"), W(b"f", b"2"), c_add([b"f"]), c_commit(b"c2"),
+                 c_branch_flags(rename=b"trunk", delete=b"ghost"), c_branch_list(), c_branch_flags(rename=b"trunk2", delete=b"dev"),
+                 c_branch_list(), c_branch_flags(names=[b"x"], delete=b"dev"), c_branch_flags(names=[b"x"], rename=b"y"),
+                 c_branch_flags(lst=True, delete=b"dev"), c_branch_flags(lst=True, rename=b"z"), c_branch_flags(names=[b"p", b"q"]),
+                 c_branch_flags(names=[b"x"], lst=True), c_branch_list(), c_rev_parse([b"main", b"dev"]), c_reflog(),
+                 c_branch_flags(delete=b"dev"), c_branch_flags(rename=b"trunk"), c_branch_flags(lst=True), c_reflog()]
+
+
+def blank_edged_ignore_entries():
+    return ID + [W(b".goitignore", b" cache/\nbuild/\n*.tmp \n"), W(b" cache/one.bin", b"1"), W(b" cache/deep/two.bin", b"2"),
+                 W(b"cache/three", b"3"), W(b"build/o", b"o"), W(b"x.tmp ", b"t"), W(b"x.tmp", b"u"), W(b"src/main.c", b"m"), c_status(),
+                 c_add([b"."]), c_ls_files(False), c_add([b" cache"]), c_add([b" cache/one.bin"]), c_ls_files(False), c_status()]
+
+
 ORACLE_ONLY = {"newline-names", "invalid-ignore-lines"}
 
 DIRECTED = [
+    (("C10", "C18"), "branch-flag-combinations", branch_flag_combinations, "two modes of branch in one invocation (rename+delete, name+delete, list+rename, two names): always refused, nothing changes"),
+    (("C17", "C13"), "blank-edged-ignore-entries", blank_edged_ignore_entries, "ignore entries whose directory name begins, or whose extension ends, with a blank"),
     (("C10", "C03"), "tmp-named-branches", tmp_named_branches, "branches named like Goit's own temporary and metadata files (X.tmp beside X, index, HEAD, config)"),
     (("C17", "C13"), "spaced-ignore-entries", spaced_ignore_entries, "a .goitignore directory entry whose name contains a space"),
     (("C18",), "invalid-ignore-lines", invalid_ignore_lines, "F49: .goitignore lines that are not valid regular expressions must not crash any command (outside the model's ignore alphabet: oracle only)"),
